@@ -949,14 +949,33 @@ fn take_run<T: RunEndIndexType, I: ArrowPrimitiveType>(
     run_array: &RunArray<T>,
     logical_indices: &PrimitiveArray<I>,
 ) -> Result<RunArray<T>, ArrowError> {
-    // get physical indices for the input logical indices
-    let physical_indices = run_array.get_physical_indices(logical_indices.values())?;
+    // get physical indices for the valid logical indices; a null index produces a null value
+    // (its payload is unspecified and must neither be looked up nor bounds checked)
+    let index_nulls = logical_indices.nulls().filter(|n| n.null_count() > 0);
+    let physical_indices: Vec<Option<usize>> = match index_nulls {
+        None => run_array
+            .get_physical_indices(logical_indices.values())?
+            .into_iter()
+            .map(Some)
+            .collect(),
+        Some(nulls) => {
+            let valid_logical: Vec<I::Native> = nulls
+                .valid_indices()
+                .map(|i| logical_indices.values()[i])
+                .collect();
+            let mut physical = run_array.get_physical_indices(&valid_logical)?.into_iter();
+            nulls
+                .iter()
+                .map(|valid| if valid { physical.next() } else { None })
+                .collect()
+        }
+    };
 
     // Run encode the physical indices into new_run_ends
     // Keep track of the physical indices to take in take_value_indices
     // `unwrap` is used in this function because the unwrapped values are bounded by the corresponding `::Native`.
     let mut new_run_ends = Vec::with_capacity(1);
-    let mut take_value_indices = Vec::with_capacity(1);
+    let mut take_value_indices: Vec<Option<usize>> = Vec::with_capacity(1);
 
     let values_cmp = make_comparator(
         run_array.values().as_ref(),
@@ -967,14 +986,17 @@ fn take_run<T: RunEndIndexType, I: ArrowPrimitiveType>(
     for ix in 1..physical_indices.len() {
         let prev_idx = physical_indices[ix - 1];
         let cur_idx = physical_indices[ix];
-        let is_new_run = cur_idx != prev_idx && values_cmp(cur_idx, prev_idx).is_ne();
+        let is_new_run = match (prev_idx, cur_idx) {
+            (Some(prev), Some(cur)) => cur != prev && values_cmp(cur, prev).is_ne(),
+            (None, None) => false,
+            _ => true,
+        };
         if is_new_run {
-            take_value_indices.push(I::Native::from_usize(prev_idx).unwrap());
+            take_value_indices.push(prev_idx);
             new_run_ends.push(T::Native::from_usize(ix).unwrap());
         }
     }
-    take_value_indices
-        .push(I::Native::from_usize(physical_indices[physical_indices.len() - 1]).unwrap());
+    take_value_indices.push(physical_indices[physical_indices.len() - 1]);
     new_run_ends.push(T::Native::from_usize(physical_indices.len()).unwrap());
 
     // SAFETY: run-ends are strictly increasing with last value == logical length.
@@ -982,7 +1004,17 @@ fn take_run<T: RunEndIndexType, I: ArrowPrimitiveType>(
         RunEndBuffer::new_unchecked(ScalarBuffer::from(new_run_ends), 0, physical_indices.len())
     };
 
-    let take_value_indices = PrimitiveArray::<I>::new(ScalarBuffer::from(take_value_indices), None);
+    let take_value_nulls = take_value_indices
+        .iter()
+        .any(|i| i.is_none())
+        .then(|| NullBuffer::from_iter(take_value_indices.iter().map(|i| i.is_some())));
+    let take_value_indices = PrimitiveArray::<I>::new(
+        take_value_indices
+            .iter()
+            .map(|i| I::Native::from_usize(i.unwrap_or_default()).unwrap())
+            .collect::<ScalarBuffer<_>>(),
+        take_value_nulls,
+    );
 
     let new_values = take(run_array.values(), &take_value_indices, None)?;
 
